@@ -30,7 +30,7 @@ def copy_repo(dst):
 def run_tests(repo):
     p = subprocess.run([PY, '-m', 'pytest', '-q', '-p', 'no:cacheprovider', '-x',
                         '--deselect', 'tests/server/test_compaction.py::test_compaction',
-                        '--timeout=900'], cwd=repo, capture_output=True, text=True)
+                        '--timeout=60'], cwd=repo, capture_output=True, text=True)
     tail = p.stdout.strip().splitlines()[-1] if p.stdout.strip() else p.stderr[-300:]
     return p.returncode == 0, tail
 
